@@ -1143,6 +1143,11 @@ class Evaluator:
         rty = (n.get("recv_ty") or "").lstrip("&").replace("mut ", "")
         if recv is None and rty in self.type_alias:
             recv = ("obj", self.type_alias[rty])
+        if name == "insert" and "set_attr" in self.watch and "AttrMap" in rty and n["recv"].get("k") == "Field" and n["recv"].get("name") == "attrs" and len(args) == 2:
+            # `self.attrs.insert(key, value)` is what set_attr() is: a helper that writes the attribute map itself
+            # (`set_num_attr`) sets the attribute
+            self.calls.append(dict(name="set_attr", recv=self.eval(n["recv"]["x"], env, st), args=args, line=n.get("line"), cond=getattr(self, "cond_depth", 0) > 0))
+            return ("tup", [])
         if name in self.watch:
             self.calls.append(dict(name=name, recv=recv, args=args, line=n.get("line"), cond=getattr(self, "cond_depth", 0) > 0))
             if (n.get("ty") or "") == "()":
